@@ -898,7 +898,6 @@ func c13DiskJoin(c *Ctx) {
 	c.Ob(rule, "storageos.bucket.Walk/revalidates", walk.Decl.Pos(), okW && seenW > 0, true, "%d ObjectInfo construction(s) in Walk; each path derives from a sanitizer result: %v", seenW, okW)
 }
 
-
 // c13FromSanitizer: v depends on a sanitizer result in its own function, or v is (derived from) a parameter of an
 // unexported function all of whose static callers pass a value that does (an extracted helper that receives the
 // already validated path).
